@@ -1,6 +1,6 @@
 """C07 - errors and panics surface once as an Error notification (DESIGN 6/C07): the fault plan <position, invocation index, kind> is enumerated by
 TLC in Pipeline.tla (Faults), each plan is executed on the real code with recover() around every harness call and a hang watchdog."""
-import vlib, parts_kernel, parts_pipeline as pp, common
+import vlib, parts_kernel, parts_creation, parts_pipeline as pp, common
 
 PID = 'C07'
 
@@ -9,6 +9,8 @@ def main(argv):
     rep = vlib.Report(PID, 'fault_enumeration', argv)
     vlib.build_harness()
     pp.run(rep, PID, common.pipeline_cfgs(rep, 'faults'), modes='ctl-unsafe,ctl-safe,sync')
+    # creation operators incl. a synchronous source whose teardown / finalizer panics, subscribed directly: nothing escapes into the Subscribe call
+    parts_creation.run(rep, PID, rep.tier == 'thorough')
     # kernel traces with panicking teardowns / contended terminals: no call may hang (a lock left held) - the watchdog's "hang" event is unexplainable
     parts_kernel.trace_part(rep, PID, 300, [rep.seed * 100 + i for i in range(6 if rep.tier == 'thorough' else 1)])
     rep.cov['rule'] = common.PIPE_RULE + ('; C07: for every case a fault plan: panic(error value) or panic(arbitrary value) in the subscribe function of the source or at the '
@@ -23,4 +25,7 @@ def replay(path):
     vlib.build_harness()
     if path.endswith('.ndjson'):
         return parts_kernel.replay_trace(PID, path)
+    import json
+    if json.load(open(path))['replay'].get('module') == 'Creation':
+        return parts_creation.replay_case(PID, path)
     return pp.replay_case(PID, path)
